@@ -38,9 +38,9 @@ VARIABLES onb, ort,   \* orientation graph (neighbour order, route tables)
           acts,       \* the behaviour so far (replayed on the real library)
           nobs
 
-RO == INSTANCE Routing WITH N <- NO, MaxLinks <- 0, ForestOnly <- TRUE,
+RO == INSTANCE Routing WITH N <- NO, MaxLinks <- 0, ForestOnly <- TRUE, SinglePass <- FALSE,
                             nbrs <- onb, routes <- ort, hist <- ohist
-RC == INSTANCE Routing WITH N <- NC, MaxLinks <- 0, ForestOnly <- TRUE,
+RC == INSTANCE Routing WITH N <- NC, MaxLinks <- 0, ForestOnly <- TRUE, SinglePass <- FALSE,
                             nbrs <- cnb, routes <- crt, hist <- ohist
 
 vars == <<onb, ort, cnb, crt, ohist, frames, acts, nobs>>
